@@ -206,14 +206,14 @@ def check_e2e(sample, report):
     from mc import e2e
     n = 0
     prefix = {"huawei": "undo", "huawei ce": "undo"}.get(sample["vendor_key"], "no")
-    for label, gens, head in e2e_cases(sample):
-        case = {"part": "E", "sample": sample["name"], "case": label}
+    for label, gens, head, clear in [(l_, g_, h_, c_) for l_, g_, h_ in e2e_cases(sample) for c_ in ((False, True) if h_ else (False,))]:
+        case = {"part": "E", "sample": sample["name"], "case": label + ("+clear" if clear else "")}
         with e2e.Session(sample["model"], sample["old"], gens) as ss:
             if not ss.representable:
                 continue
             try:
-                shown = ss.patch(False)
-                job = ss.deploy_job(False, False)
+                shown = ss.patch(False, clear=clear)       # --clear: the generators' whole domain is to be removed
+                job = ss.deploy_job(False, False, clear=clear)
             except Exception as e:  # noqa   (vendor logic may refuse a partial configuration; an outcome, judged elsewhere)
                 continue
         n += 1
